@@ -1,4 +1,18 @@
-"""C17 - AR simulation and residual are exact inverses."""
+"""C17 - AR simulation and residual are exact inverses.
+
+Two input classes besides the values themselves (both inside the property's quantifier:
+the property speaks of coefficient vectors, series, means and initial values as VALUES):
+
+* stored representation (REPS_*): the same values handed over as float64 / float32 /
+  integer / bool / object / big-endian / unaligned arrays, strided, reversed, column, row,
+  offset and read-only views, 0-d arrays, numpy and Python scalars, lists, tuples, pandas
+  Series under any index.  Every such case goes through the same correspondence (Coq model
+  on the values) and the same oracle as the canonical float64 C-contiguous case.
+* operation sequences (sessions): a pool of coefficient / series arrays used by several
+  calls, rewritten in place between calls, passed twice to one call, results fed straight
+  into the inverse function; every result must satisfy the oracle for the values its
+  arguments had at the time of the call - at return and after every later operation.
+"""
 import math
 
 import numpy as np
@@ -57,44 +71,294 @@ def gen_case(rng, i, thorough):
     elif bad < 0.07:
         ini = float("nan")
         ini_default = False
-    return dict(kind=kind, params=params, series=series, mean=mean, ini=ini,
+    case = dict(kind=kind, params=params, series=series, mean=mean, ini=ini,
                 mean_default=mean_default, ini_default=ini_default)
+    if rng.random() < 0.5:
+        draw_rep(rng, case)
+    return case
+
+
+# ------------------------------------------------------------------ stored representations
+# documented argument types (armodels.py docstrings): series = numpy.ndarray, params = float or
+# numpy.ndarray, sim_mean / sim_ini = float.  The other ones (lists, tuples, pandas Series, numpy
+# scalars in the place of an array, 0-d arrays in the place of a float) work in the pinned code;
+# the property does not promise that they are accepted, so a TypeError / AttributeError on them is
+# not reported - but when they are accepted the result must be the property's result.
+REPS_ARRAY = ["f32", "i64", "i32", "bool", "obj", "be", "unaligned", "strided", "neg", "negstrided",
+              "offset", "col", "fcol", "row", "ro", "ro_strided", "0d", "0d_f32"]
+REPS_SERIES_UNDOC = ["npscalar", "pd:range", "pd:dates", "pd:tz", "pd:text", "pd:shuffled", "pd:dup",
+                     "pd:float", "pd:f32"]
+REPS_PARAMS_UNDOC = ["list", "tuple", "pd:text", "pd:shuffled", "0d", "int"]
+REPS_SCALAR = ["f64", "f32", "int", "i64", "0d"]
+# dtypes whose numpy.nanmean is not the float64 mean of the values (default sim_mean of residual)
+_NOT_F64_MEAN = ("f32", "i64", "i32", "bool", "obj", "be", "0d_f32", "pd:f32")
+FILL = (1e300, float("nan"), -7.5e5)
+
+
+def _f32(x):
+    with np.errstate(all="ignore"):
+        return float(np.float32(x))
+
+
+def draw_rep(rng, case):
+    """Choose a stored representation for each argument and make the VALUES of the case exactly
+    representable in it (the case keeps the values as Python floats: they are what the model and
+    the oracle see)."""
+    rep = {}
+    n, order = len(case["series"]), len(case["params"])
+    # --- series
+    r = rng.random()
+    if r < 0.75:
+        cand = [x for x in REPS_ARRAY if n == 1 or not x.startswith("0d")]
+        sr = rng.choice(cand)
+    elif r < 0.95:
+        cand = [x for x in REPS_SERIES_UNDOC if n == 1 or x != "npscalar"]
+        sr = rng.choice(cand)
+    else:
+        sr = "c64"
+    ser = case["series"]
+    if sr in ("f32", "0d_f32", "pd:f32"):
+        ser = [_f32(x) for x in ser]
+    elif sr in ("i64", "i32"):
+        ser = [0.0 if math.isnan(x) else float(max(-2e9, min(2e9, round(x)))) for x in ser]
+    elif sr == "bool":
+        ser = [0.0 if math.isnan(x) else float(x > 0) for x in ser]
+    case["series"] = ser
+    rep["series"] = sr
+    if sr in _NOT_F64_MEAN and case["kind"] == 1 and case["mean_default"]:
+        case["mean_default"] = False       # generator restriction (see notes in run())
+    # --- params
+    r = rng.random()
+    pr = "c64"
+    if r < 0.45:
+        cand = [x for x in REPS_ARRAY if x not in ("bool", "0d_f32", "i32") and (order == 1 or x != "0d")]
+        if order == 1:
+            cand += ["float", "npfloat", "float", "npfloat"]
+        pr = rng.choice(cand)
+    elif r < 0.6:
+        pr = rng.choice([x for x in REPS_PARAMS_UNDOC if order == 1 or x not in ("0d", "int")])
+    par = case["params"]
+    if pr == "f32":
+        par = [_f32(x) for x in par]
+    elif pr in ("i64", "int"):
+        # integer coefficients with sum |phi| <= 1.5: at most one +-1
+        if not any(math.isnan(x) for x in par) and order > 0:
+            j = rng.randrange(order)
+            par = [0.0] * order
+            par[j] = rng.choice([1.0, -1.0, 0.0])
+        else:
+            pr = "c64"
+    case["params"] = par
+    rep["params"] = pr
+    # --- mean, initial value
+    for name in ("mean", "ini"):
+        v = case[name]
+        q = "float"
+        if rng.random() < 0.4 and not math.isnan(v):
+            q = rng.choice(REPS_SCALAR)
+            if q == "f32":
+                v = _f32(v)
+            elif q in ("int", "i64"):
+                v = float(round(max(-1e15, min(1e15, v))))
+            if math.isinf(v):
+                q, v = "float", case[name]
+        case[name] = v
+        rep[name] = q
+    if case["ini_default"]:
+        case["ini"] = case["mean"]
+    case["rep"] = rep
+    return case
+
+
+def _filled(shape):
+    big = np.empty(shape, dtype=np.float64)
+    flat = big.reshape(-1)
+    for k, f in enumerate(FILL):
+        flat[k::len(FILL)] = f
+    return big
+
+
+def build_array(vals, rep):
+    """the values `vals` (Python floats) as an object of stored representation `rep`"""
+    a = np.array(vals, dtype=np.float64)
+    n = len(vals)
+    if rep == "c64":
+        return a
+    if rep == "f32":
+        return a.astype(np.float32)
+    if rep == "i64":
+        return a.astype(np.int64)
+    if rep == "i32":
+        return a.astype(np.int32)
+    if rep == "bool":
+        return a.astype(bool)
+    if rep == "obj":
+        return np.array([float(x) for x in vals], dtype=object).reshape(n)
+    if rep == "be":
+        return a.astype(">f8")
+    if rep == "unaligned":
+        raw = np.zeros(8 * n + 1, dtype=np.uint8)
+        v = raw[1:].view(np.float64)
+        v[:] = a
+        return v
+    if rep in ("strided", "ro_strided"):
+        v = _filled(3 * n + 2)[1::3][:n]
+        v[:] = a
+        if rep == "ro_strided":
+            v.flags.writeable = False
+        return v
+    if rep == "neg":
+        return a[::-1].copy()[::-1]
+    if rep == "negstrided":
+        v = _filled(2 * n + 1)[::-2][:n]
+        v[:] = a
+        return v
+    if rep == "offset":
+        v = _filled(n + 5)[3:3 + n]
+        v[:] = a
+        return v
+    if rep == "col":
+        v = _filled((n, 3))[:, 1]
+        v[:] = a
+        return v
+    if rep == "fcol":
+        v = np.asfortranarray(_filled((n, 3)))[:, 1]
+        v[:] = a
+        return v
+    if rep == "row":
+        v = _filled((3, n))[1]
+        v[:] = a
+        return v
+    if rep == "ro":
+        a.flags.writeable = False
+        return a
+    if rep == "0d":
+        return np.array(vals[0], dtype=np.float64)
+    if rep == "0d_f32":
+        return np.array(vals[0], dtype=np.float32)
+    if rep == "npscalar":
+        return np.float64(vals[0])
+    if rep == "npfloat":
+        return np.float64(vals[0])
+    if rep == "float":
+        return float(vals[0])
+    if rep == "int":
+        return int(vals[0])
+    if rep == "list":
+        return [float(x) for x in vals]
+    if rep == "tuple":
+        return tuple(float(x) for x in vals)
+    if rep.startswith("pd:"):
+        import pandas as pd
+        kind = rep[3:]
+        if kind == "f32":
+            return pd.Series(a.astype(np.float32))
+        if kind == "range":
+            idx = None
+        elif kind == "dates":
+            idx = pd.date_range("2001-03-01", periods=n, freq="D")[::-1]
+        elif kind == "tz":
+            idx = pd.date_range("2001-03-01", periods=n, freq="h", tz="Australia/Sydney")
+        elif kind == "text":
+            idx = [f"k{(7 * i) % 5}" for i in range(n)]
+        elif kind == "shuffled":
+            idx = [(i * 7 + 3) % max(n, 1) if math.gcd(7, max(n, 1)) == 1 else n - 1 - i for i in range(n)]
+        elif kind == "dup":
+            idx = [i // 3 for i in range(n)][::-1]
+        else:
+            idx = [0.5 * (n - i) for i in range(n)]
+        return pd.Series(a, index=idx)
+    raise KeyError(rep)
+
+
+def build_scalar(v, rep):
+    if rep == "float":
+        return float(v)
+    if rep == "f64":
+        return np.float64(v)
+    if rep == "f32":
+        return np.float32(v)
+    if rep == "int":
+        return int(v)
+    if rep == "i64":
+        return np.int64(int(v))
+    if rep == "0d":
+        return np.array(v, dtype=np.float64)
+    raise KeyError(rep)
+
+
+def uses_undocumented(case):
+    rep = case.get("rep") or {}
+    return (rep.get("series") in REPS_SERIES_UNDOC or rep.get("params") in REPS_PARAMS_UNDOC
+            or rep.get("mean") == "0d" or rep.get("ini") == "0d")
+
+
+class Unsupported(Exception):
+    """an undocumented argument type was refused with TypeError / AttributeError"""
+
+
+def build_args(case):
+    """the arguments of the call in the stored representation of the case:
+    (params object, series object, explicit mean or None, explicit ini or None)"""
+    rep = case.get("rep") or {}
+    params = build_array(case["params"], rep.get("params", "c64"))
+    series = build_array(case["series"], rep.get("series", "c64"))
+    mean = None if case["mean_default"] else build_scalar(case["mean"], rep.get("mean", "float"))
+    ini = None if case["ini_default"] else build_scalar(case["ini"], rep.get("ini", "float"))
+    return params, series, mean, ini
+
+
+def call_impl(kind, params, series, mean_arg, ini_arg):
+    """One call of the public API on the given objects (None = argument left to its default).
+    Returns (effective mean, effective ini, output list or None, exception text or None);
+    the effective values are those the docstrings define for the defaults."""
+    from hydrodiy.stat import armodels
+    kw = {}
+    if kind == 0:
+        if mean_arg is None:
+            mean = 0.0
+        else:
+            kw["sim_mean"] = mean_arg
+            mean = float(mean_arg)
+        fn = armodels.armodel_sim
+    else:
+        if mean_arg is None:
+            with np.errstate(all="ignore"):
+                # the same expression on the same object as the docstring ("mean(inputs)")
+                mean = float(np.nanmean(series)) if np.size(series) else float("nan")
+        else:
+            kw["sim_mean"] = mean_arg
+            mean = float(mean_arg)
+        fn = armodels.armodel_residual
+    if ini_arg is None:
+        ini = mean
+    else:
+        kw["sim_ini"] = ini_arg
+        ini = float(ini_arg)
+    exc = None
+    res = None
+    try:
+        with np.errstate(all="ignore"):
+            res = fn(params, series, **kw)
+        out = [float(x) for x in np.asarray(res).reshape(-1)]
+    except ValueError as e:
+        out, exc = None, repr(e)[:200]
+    except Exception as e:      # noqa: BLE001 - reported by the oracle as a rejection
+        out, exc = None, repr(e)[:200]
+    return mean, ini, out, exc, res
 
 
 def run_impl(case):
     """Call the public API; returns (effective mean, effective ini, output or None)."""
-    from hydrodiy.stat import armodels
-    params = np.array(case["params"], dtype=np.float64)
-    series = np.array(case["series"], dtype=np.float64)
-    kw = {}
-    mean, ini = case["mean"], case["ini"]
-    if case["kind"] == 0:
-        if case["mean_default"]:
-            mean = 0.0
-        else:
-            kw["sim_mean"] = mean
-        if case["ini_default"]:
-            ini = mean
-        else:
-            kw["sim_ini"] = ini
-        fn = armodels.armodel_sim
-    else:
-        if case["mean_default"]:
-            with np.errstate(all="ignore"):
-                mean = float(np.nanmean(series)) if len(series) else float("nan")
-        else:
-            kw["sim_mean"] = mean
-        if case["ini_default"]:
-            ini = mean
-        else:
-            kw["sim_ini"] = ini
-        fn = armodels.armodel_residual
-    try:
-        with np.errstate(all="ignore"):
-            out = fn(params, series, **kw)
-        out = [float(x) for x in np.atleast_1d(out)]
-    except ValueError:
-        out = None
+    import warnings
+    params, series, mean_arg, ini_arg = build_args(case)
+    with warnings.catch_warnings():
+        warnings.simplefilter("ignore")
+        mean, ini, out, exc, _ = call_impl(case["kind"], params, series, mean_arg, ini_arg)
+    if exc is not None and not exc.startswith("ValueError"):
+        if uses_undocumented(case) and exc.startswith(("TypeError", "AttributeError")):
+            raise Unsupported(exc)
+        case["exception"] = exc
     return mean, ini, out
 
 
@@ -126,7 +390,9 @@ def oracle(case, mean, ini, out):
                           f"order={order} or NaN parameter/mean/ini accepted without error"))
         return fails
     if out is None:
-        fails.append(("C17/reject/valid-input-rejected", f"order={order} valid input raised"))
+        fails.append(("C17/reject/valid-input-rejected",
+                      f"order={order} valid input raised {case.get('exception', 'ValueError')}"
+                      + (f" (stored representation {case['rep']})" if case.get("rep") else "")))
         return fails
     if len(out) != len(series):
         fails.append(("C17/shape", "output length differs from input length"))
@@ -159,6 +425,16 @@ def oracle(case, mean, ini, out):
     else:
         nanpos = [t for t, x in enumerate(series) if math.isnan(x)]
         tol = _tol(out + [x for x in series if not math.isnan(x)] + [mean, ini])
+        if not nanpos:
+            # the innovations of the recursion that produces y (its unique solution in e):
+            # e[t] = (y[t]-m) - sum_k phi[k]*(y[t-k]-m), y[t-k] = ini before the start
+            for t, y in enumerate(series):
+                lags = [(series[t - 1 - k] if t - 1 - k >= 0 else ini) - mean for k in range(order)]
+                want = math.fsum([y, -mean] + [-params[k] * lags[k] for k in range(order)])
+                if math.isnan(out[t]) or abs(out[t] - want) > tol * (1 + order):
+                    fails.append(("C17/residual/recursion",
+                                  f"residual[{t}]={out[t]!r} but the recursion gives {want!r}"))
+                    break
         for t in nanpos:
             if not abs(out[t]) <= tol * (1 + order):
                 fails.append(("C17/residual/missing-input-nonzero",
@@ -169,7 +445,7 @@ def oracle(case, mean, ini, out):
         # factor is moderate (the exact law is the theorem C17_sim_of_residual; the kernels
         # are compared bit-exactly with the model in any case)
         sabs = sum(abs(q) for q in params)
-        amp = max(1.0, sabs) ** len(series)
+        amp = math.exp(min(700.0, len(series) * math.log(max(1.0, sabs)))) if math.isfinite(sabs) else math.inf
         if not nanpos and amp <= 1e4:
             tol = tol * amp
             try:
@@ -183,38 +459,231 @@ def oracle(case, mean, ini, out):
     return fails
 
 
+# ------------------------------------------------------------------ operation sequences
+def _bits(xs):
+    return [None if x is None else (float(x).hex() if not math.isnan(x) else "nan") for x in xs]
+
+
+def _draw_params(rng, order):
+    raw = [rng.uniform(-1, 1) for _ in range(order)]
+    s = sum(abs(x) for x in raw) or 1.0
+    tot = rng.choice([0.3, 0.9, 1.0, 1.2]) * rng.random() ** 0.3
+    par = [x / s * tot for x in raw]
+    if rng.random() < 0.3:
+        par = [round(q * 8) / 8 for q in par]
+    return par
+
+
+def _draw_series(rng, n, scale):
+    ser = [rng.gauss(0, 1) * scale for _ in range(n)]
+    if rng.random() < 0.3:
+        ser = [float(round(x)) for x in ser]
+    if n and rng.random() < 0.2:
+        for _ in range(rng.randint(1, max(1, n // 4))):
+            ser[rng.randrange(n)] = float("nan")
+    return ser
+
+
+def session(ctx, rng, sid):
+    """One pool of arrays, a sequence of operations.  Returns True when a failure was reported."""
+    import warnings
+    scale = rng.choice([1.0, 1.0, 1e3])
+    lens = [rng.choice([1, 2, 3, 5, 8, rng.randint(4, 30)]) for _ in range(2)]
+    pool, initial = {}, {}
+    pnames, snames = [], []
+    for k in range(rng.randint(2, 3)):
+        order = rng.choice([rng.randint(1, 10), lens[k % 2] if lens[k % 2] <= 10 else 2])
+        pool[f"P{k}"] = np.array(_draw_params(rng, order))
+        pnames.append(f"P{k}")
+    for k in range(rng.randint(3, 4)):
+        pool[f"S{k}"] = np.array(_draw_series(rng, lens[k % 2], scale))
+        snames.append(f"S{k}")
+    for k, v in pool.items():
+        initial[k] = v.tolist()
+    history, entries = [], []
+    reported = False
+    nres = 0
+
+    def fail(key, entry, what, extra=None):
+        nonlocal reported
+        reported = True
+        rep = {"session": sid, "pool_at_start": initial, "history": history,
+               "failing_call": entry["step"], "case_at_time_of_call": entry["case"],
+               "mean": entry["mean"], "ini": entry["ini"], "output_at_return": entry["out"]}
+        rep.update(extra or {})
+        ctx.failure(key, rep, what)
+
+    def recheck(after):
+        for en in entries:
+            if not en["alive"]:
+                continue
+            live = [float(x) for x in np.asarray(pool[en["res"]]).reshape(-1)]
+            if _bits(live) == _bits(en["out"]):
+                continue
+            en["alive"] = False
+            with warnings.catch_warnings():
+                warnings.simplefilter("ignore")
+                fl = oracle(en["case"], en["mean"], en["ini"], live)
+            for key, what in fl:
+                fail(key + "/after-later-operations", en,
+                     f"session {sid}: result {en['res']} of step {en['step']} ({en['call']}) now reads "
+                     f"{live[:6]!r} after step {after} ({history[-1]['op']}"
+                     f"{' ' + history[-1].get('target', '') if history[-1]['op'] == 'write' else ''}), it was "
+                     f"{en['out'][:6]!r} at return: {what}", {"output_now": live})
+
+    nsteps = rng.randint(8, 16)
+    for step in range(nsteps):
+        r = rng.random()
+        alive = [en for en in entries if en["alive"] and en["out"] is not None]
+        used = [x for en in entries for x in (en["pname"], en["sname"]) if x in pool]
+        if r < 0.28 and step > 0:
+            # ---- the caller rewrites one of its arrays in place (mostly one that a call has used)
+            name = rng.choice(used if used and rng.random() < 0.7 else
+                              pnames + snames + [en["res"] for en in alive])
+            arr = pool[name]
+            n = arr.shape[0]
+            how = rng.choice(["all", "all", "one", "scale"]) if n else "all"
+            if how == "all":
+                new = _draw_params(rng, n) if name in pnames else _draw_series(rng, n, scale)
+                arr[:] = new
+            elif how == "one":
+                j = rng.randrange(n)
+                if name in pnames:
+                    room = 1.5 - (sum(abs(x) for x in arr.tolist() if not math.isnan(x)) - abs(arr[j]))
+                    arr[j] = rng.uniform(-1, 1) * max(0.0, min(room, 0.5))
+                else:
+                    arr[j] = rng.choice([rng.gauss(0, 1) * scale, 0.0, float("nan")])
+            else:
+                arr *= 0.5
+            history.append({"op": "write", "target": name, "how": how, "values_after": arr.tolist()})
+            for en in entries:
+                if en["res"] == name:
+                    en["alive"] = False      # the caller overwrote this result itself
+            recheck(step)
+            continue
+        # ---- a call on pool objects
+        kind = rng.choice([0, 1])
+        chain = None
+        r = rng.random()
+        if alive and r < 0.3:
+            # the result object of an earlier call straight into the inverse function
+            chain = rng.choice(alive)
+            kind = 1 - chain["case"]["kind"]
+            pname, sname = chain["pname"], chain["res"]
+            mean_arg, ini_arg = chain["mean"], chain["ini"]
+        elif entries and r < 0.6:
+            # an earlier call once more: same objects (whatever they hold now), same arguments
+            prev = rng.choice([en for en in entries if en["sname"] in pool])
+            kind, pname, sname = prev["case"]["kind"], prev["pname"], prev["sname"]
+            mean_arg, ini_arg = prev["mean_arg"], prev["ini_arg"]
+        else:
+            pname = rng.choice(pnames)
+            sname = rng.choice(snames + [en["res"] for en in alive])
+            if rng.random() < 0.12:
+                sname = pname            # the same object as coefficients and as series
+            mean_arg = None if rng.random() < 0.4 else rng.choice([0.0, rng.gauss(0, 2) * scale])
+            ini_arg = None if rng.random() < 0.4 else rng.choice([0.0, rng.gauss(0, 2) * scale, mean_arg or 0.0])
+        params, series = pool[pname], pool[sname]
+        case = dict(kind=kind, params=params.tolist(), series=np.asarray(series, dtype=np.float64).reshape(-1).tolist(),
+                    mean=mean_arg, ini=ini_arg, mean_default=mean_arg is None, ini_default=ini_arg is None)
+        call = (f"armodel_{'sim' if kind == 0 else 'residual'}({pname}, {sname}, sim_mean={mean_arg!r}, "
+                f"sim_ini={ini_arg!r})")
+        cm.mark({"call": call, "session": sid, "case": case})
+        with warnings.catch_warnings():
+            warnings.simplefilter("ignore")
+            mean, ini, out, exc, res = call_impl(kind, params, series, mean_arg, ini_arg)
+        if exc is not None and not exc.startswith("ValueError"):
+            case["exception"] = exc
+        rname = f"R{nres}"
+        nres += 1
+        history.append({"op": "call", "call": call, "result": rname, "params_values": case["params"],
+                        "series_values": case["series"], "output": out})
+        en = dict(step=step, call=call, case=case, mean=mean, ini=ini, out=out, res=rname, pname=pname,
+                  sname=sname, mean_arg=mean_arg, ini_arg=ini_arg,
+                  alive=out is not None and isinstance(res, np.ndarray) and res.ndim == 1)
+        if en["alive"]:
+            pool[rname] = res
+        entries.append(en)
+        ctx.count(("session", kind, min(len(case["params"]), 3), min(len(case["series"]), 4),
+                   chain is not None, sname == pname, sname.startswith("R"), out is None))
+        with warnings.catch_warnings():
+            warnings.simplefilter("ignore")
+            fl = oracle(case, mean, ini, out)
+        for key, what in fl:
+            fail(key, en, f"session {sid} step {step}: {call} with {pname}={case['params']!r}, "
+                          f"{sname}={case['series'][:8]!r}: {what}")
+        recheck(step)
+    return reported
+
+
+def sessions(ctx):
+    n = ctx.scale(60, 600)
+    nfail = 0
+    for sid in range(n):
+        if session(ctx, ctx.rng, sid):
+            nfail += 1
+    ctx.notes["sessions"] = n
+    ctx.notes["sessions_with_failures"] = nfail
+    return nfail
+
+
 def run(ctx):
     ctx.rule = ("cases drawn from one PRNG: kind sim/residual x order 0..12 x coefficients of "
                 "any sign (sum|phi|<=1.5, 25% dyadic) x length 0..60 (400 thorough) x NaN placement "
-                "x default/explicit mean and initial value x NaN parameters; non-trivial = distinct "
-                "(kind, order, length class, has NaN, error) signature")
+                "x default/explicit mean and initial value x NaN parameters x (half of the cases) stored "
+                "representation of the series / coefficients / mean / initial value (float32, int64/32, bool, "
+                "object, big-endian, unaligned, strided / reversed / column / row / offset / read-only views, "
+                "0-d arrays, numpy and Python scalars, lists, tuples, pandas Series under range / date / tz / "
+                "text / shuffled / duplicate / float index) with values exactly representable in it; "
+                "sessions: a pool of coefficient / series arrays x 8..16 operations (call on pool objects "
+                "incl. the same object as coefficients and series, result object of an earlier call fed to "
+                "the inverse function, in-place rewrite of a pool array) with the oracle on every result at "
+                "return and after every later operation; non-trivial = distinct (kind, order, length class, "
+                "has NaN, error) signature")
     ctx.trusted = cm.STD_TRUST + [
         "default sim_mean of armodel_residual (numpy.nanmean) is computed by the harness, not the model"]
     ctx.tested_not_proved = [
         "floating-point accuracy of the inverse laws (1e-8*scale) - tested on the implementation",
-        "Python wrapper glue (atleast_1d/astype/reshape, default mean and initial value)"]
+        "Python wrapper glue (atleast_1d/astype/reshape, default mean and initial value)",
+        "independence of the stored representation of the arguments and of the history of calls "
+        "(generated representations and sessions; generator restriction: the default sim_mean of "
+        "armodel_residual is only drawn for float64 series, numpy.nanmean of a float32 / integer / "
+        "object series being computed in another arithmetic)"]
     # theorems (incl. refinement of the regenerated MiniC program) + translator/interpreter
     # vs the compiled kernels (binary64, inside Coq)
     proved = cm.prove_with_kernels(ctx, ["c_armodel_sim", "c_armodel_residual"], extractors=[])
     cm.use_impl()
     n = ctx.scale(900, 12000)
     cases, terms, results = [], [], []
+    unsupported = {}
     corpus = cm.load_corpus(PID)
     for i in range(n + len(corpus)):
         case = corpus[i] if i < len(corpus) else gen_case(ctx.rng, i, ctx.thorough)
         if len(case["params"]) > 10:
             cm.mark({"call": "armodels.armodel_sim/residual", "case": case})
-        mean, ini, out = run_impl(case)
+        try:
+            mean, ini, out = run_impl(case)
+        except Unsupported as e:
+            unsupported[str((case["rep"], str(e)[:60]))] = unsupported.get(str((case["rep"], str(e)[:60])), 0) + 1
+            continue
         cases.append(case)
         results.append((mean, ini, out))
         terms.append(term(case, mean, ini, out))
         sig = (case["kind"], len(case["params"]), min(len(case["series"]), 4),
                any(math.isnan(x) for x in case["series"]), out is None)
         ctx.count(sig)
+        rep = case.get("rep")
+        if rep:
+            ctx.count(("rep", case["kind"], rep["series"], out is None), 0)
+            ctx.count(("rep-params", case["kind"], rep["params"], out is None), 0)
+            ctx.count(("rep-scalars", rep["mean"], rep["ini"]), 0)
         if i % 150 == 0:
-            ctx.sample({"kind": "sim" if case["kind"] == 0 else "residual",
+            ctx.sample({"kind": "sim" if case["kind"] == 0 else "residual", "rep": case.get("rep", "float64 C-contiguous"),
                         "params": case["params"], "mean": mean, "ini": ini,
                         "series": case["series"][:8], "output": None if out is None else out[:8]})
+    ctx.notes["undocumented_argument_types_refused"] = unsupported
+    # operation sequences on shared objects (oracle only)
+    sess_failed = sessions(ctx)
     bad, nshards, failed = cm.run_case_files(PID, HEADER, "arcase", "ar_ok", terms)
     ctx.notes["correspondence_cases"] = len(terms)
     ctx.notes["correspondence_mismatches"] = len(bad)
@@ -226,6 +695,8 @@ def run(ctx):
         for key, what in oracle(case, mean, ini, out):
             orc_fail_idx.add(i)
             ctx.failure(key, {"case": case, "mean": mean, "ini": ini, "output": out}, what)
+    if sess_failed and not orc_fail_idx:
+        orc_fail_idx.add(-1)         # a concrete failing history has been reported
     cm.settle(ctx, proved, bad, failed, orc_fail_idx,
               lambda i: {"case": cases[i], "impl_output": results[i][2],
                          "model": "Hy.Model.Armodel.ar_ok"},
